@@ -47,7 +47,9 @@ def run(module, cfg, wd, name=None, workers=None, timeout=900, coverage=True, en
         gc = ["-XX:+UseSerialGC", "-XX:TieredStopAtLevel=1"]
     else:
         gc = ["-XX:+UseParallelGC", "-XX:ParallelGCThreads=4"]
-    cmd = ["java", *gc, "-Xss256m", "-Xmx" + mem, *jvm, "-cp", JAR, "tlc2.TLC",
+    jtmp = os.path.join(wd, "jtmp")          # TLC leaves an empty tlc-* directory in java.io.tmpdir per run: keep them inside the work directory
+    os.makedirs(jtmp, exist_ok=True)
+    cmd = ["java", *gc, "-Xss256m", "-Xmx" + mem, "-Djava.io.tmpdir=" + jtmp, *jvm, "-cp", JAR, "tlc2.TLC",
            "-workers", str(w), "-metadir", meta, "-noGenerateSpecTE", "-config", cfgp]
     if coverage:
         cmd += ["-coverage", "1"]
@@ -162,8 +164,11 @@ def apalache(module, obligations, wd, timeout=1200):
     for inv, expect_ok in obligations:
         t0 = time.time()
         try:
+            jtmp = os.path.join(wd, "jtmp")
+            os.makedirs(jtmp, exist_ok=True)
             p_ = subprocess.run(["apalache-mc", "check", f"--inv={inv}", "--length=0", f"--out-dir={wd}/apalache_{module}_{inv}", module + ".tla"],
-                                cwd=wd, capture_output=True, text=True, timeout=timeout)
+                                cwd=wd, capture_output=True, text=True, timeout=timeout,
+                                env=dict(os.environ, JVM_ARGS=(os.environ.get("JVM_ARGS", "") + " -Djava.io.tmpdir=" + jtmp).strip()))
             ok, bad, out = "EXITCODE: OK" in p_.stdout, "EXITCODE: ERROR (12)" in p_.stdout, p_.stdout[-400:]
         except subprocess.TimeoutExpired:
             ok, bad, out = False, False, "timeout"
